@@ -1,6 +1,10 @@
 """Engine E6 - narrowing census (C19): every place where a value can wrap, saturate or behave differently in debug and
 release builds, inside the value path (functions reachable from a job's exec that live in fontbe, fontir, fontdrasil)."""
 import re
+
+
+class E6Error(Exception):
+    pass
 from collections import defaultdict
 
 from prog import CFG, def_sites, backward_slice, operand_local, operand_place
@@ -122,3 +126,66 @@ def run(P, M, tables):
     stats = {"value_path_functions": len(fns), "narrowing_sites": len(sites), "site_groups": len(grouped), "bounded_sites": nb,
              "finding_sites": nf, "stale_table_entries": stale}
     return findings, obl, samples, stats
+
+
+def rule_cache(P, tables):
+    """ir::Glyph caches two summaries of its component transforms (`has_consistent_2x2_transforms`, `has_overflowing_2x2_transforms`)
+    when it is built; GlyphOrderWork decides from them whether a composite must be turned into contours because its 2x2 does not fit
+    F2Dot14.  `Glyph::sources_mut()` hands out the instances without refreshing the cache.  Structural clause: a function that edits
+    instances through sources_mut() AND composes component transforms (Affine multiplication) must rebuild the glyph through
+    Glyph::new afterwards, or the overflow fallback never sees the composed transform and the backend clamps it silently; every
+    other user of sources_mut() is listed with the reason the cached summaries stay valid."""
+    from common import norm_fn
+    from prog import CFG
+    findings, obl = [], []
+    sm = [k for k, b in P.bodies.items() if k.endswith("::sources_mut") and (b.get("impl_self") or "").split("<")[0] == "fontir::ir::Glyph"]
+    gnew = [k for k, b in P.bodies.items() if k.endswith("::new") and (b.get("impl_self") or "").split("<")[0] == "fontir::ir::Glyph"]
+    if len(sm) != 1 or len(gnew) != 1:
+        raise E6Error(f"cache rule: Glyph::sources_mut / Glyph::new not found: {sm} {gnew}")
+    audited = {e["fn"]: e for e in tables.get("e6_narrowing", {}).get("sources_mut_callers", [])}
+    seen = set()
+    for key, b in sorted(P.bodies.items()):
+        if "#promoted" in key:
+            continue
+        sites = [s for s in P.iter_sites(key) if s["kind"] == "call" and sm[0] in s["targets"] and not b["blocks"][s["bi"]]["cl"]]
+        if not sites:
+            continue
+        root = b.get("root") or key
+        nf = norm_fn(root)
+        seen.add(nf)
+        fam = [root] + [k for k in P.bodies if k.startswith(root + "::{closure")]
+        composes = False
+        for f in fam:
+            for s in P.iter_sites(f):
+                if s["kind"] == "call" and s["info"] and re.match(r"kurbo::affine::\{impl#\d+\}::mul(_assign)?$", s["info"].get("res") or ""):
+                    composes = True
+        rebuilds = False
+        if key == root:
+            cfg = CFG(b)
+            after = set()
+            for s in sites:
+                t = b["blocks"][s["bi"]]["t"]
+                if t["to"]:
+                    after |= set(cfg.reachable_from(t["to"][0]))
+            for s in P.iter_sites(root):
+                if s["kind"] == "call" and gnew[0] in s["targets"] and s["bi"] in after:
+                    rebuilds = True
+        if composes:
+            ok = rebuilds
+            obl.append({"rule": "CACHE", "inst": f"{nf} composes component transforms through sources_mut() and rebuilds the glyph with Glyph::new afterwards", "ok": ok})
+            if not ok:
+                findings.append({"rule": "CACHE", "key": f"CACHE|{nf}", "msg": f"{root} edits a glyph's instances through Glyph::sources_mut() and multiplies component transforms, but does not "
+                                 f"rebuild the glyph with Glyph::new afterwards: the cached 2x2 overflow/consistency summaries still describe the old transforms, the "
+                                 f"decompose-on-overflow fallback is skipped and a composed scale beyond +-2 is clamped by F2Dot14 in the backend", "loc": P.body_file_line(root), "detail": {}})
+            continue
+        e = audited.get(nf)
+        obl.append({"rule": "CACHE", "inst": f"{nf} uses sources_mut() without composing transforms: {(e or {}).get('reason', 'NOT AUDITED')[:90]}", "ok": e is not None})
+        if e is None:
+            findings.append({"rule": "CACHE", "key": f"CACHE|unaudited|{nf}", "msg": f"{root} edits a glyph's instances through Glyph::sources_mut() (which does not refresh the cached 2x2 summaries) "
+                             f"and is not in the audited list of callers", "loc": P.body_file_line(root), "detail": {}})
+    for fn in audited:
+        if fn not in seen:
+            findings.append({"rule": "CACHE", "key": f"CACHE|stale|{fn}", "msg": f"audited sources_mut caller {fn} no longer calls it; remove the entry", "loc": "tables/e6_narrowing.json", "detail": {}})
+    if len(seen) < 3:
+        raise E6Error("cache rule: too few sources_mut callers seen")
+    return findings, obl, {"sources_mut_callers": len(seen)}
